@@ -5,3 +5,4 @@ REPO="${VERIF_REPO:-/repo}"
 python3 "$HERE/gen/c20_sites.py" "$REPO" "$HERE/lean/RimeModel/Gen/CopySites.lean" > /dev/null
 python3 "$HERE/gen/c19_tables.py" "$REPO" "$HERE/lean/RimeModel/Gen/KeyTables.lean" > /dev/null
 python3 "$HERE/gen/keymaps.py" "$REPO" "$HERE/lean/RimeModel/Gen/Keymaps.lean" > /dev/null
+python3 "$HERE/gen/c17_members.py" "$REPO" "$HERE/lean/RimeModel/Gen/UserDbMembers.lean" "$HERE/harness/gen/c17_members.inc" > /dev/null
